@@ -127,6 +127,24 @@ func c19ListStr(s string) (sig, desc string) {
 	return "", ""
 }
 
+// OverflowNumerals: for every unit, the numerals around the points where number x unit crosses 2^31, 2^32 and 2^33
+// (a product that wraps past 2^32 comes back as a small positive number).
+func OverflowNumerals() []string {
+	var out []string
+	for _, u := range []byte("smhdwy") {
+		m := unitMul[u]
+		for _, lim := range []int64{1<<31 - 1, 1 << 31, 1 << 32, 1<<32 + 44, 1 << 33, 3 << 32, 1 << 40} {
+			for _, d := range []int64{-1, 0, 1, 2} {
+				n := lim/m + d
+				if n >= 0 {
+					out = append(out, fmt.Sprintf("%d%c", n, u))
+				}
+			}
+		}
+	}
+	return out
+}
+
 func allStrings(alpha string, maxLen int, shard, of int, f func(string)) int64 {
 	var n int64
 	buf := make([]byte, 0, maxLen)
@@ -328,6 +346,9 @@ func runC19(c *fw.Ctx) {
 				durStr(num + u)
 			}
 		}
+		for _, s := range OverflowNumerals() {
+			durStr(s)
+		}
 		for _, s := range []string{"-1s", "+1s", " 1s", "1s ", "1 s", "1S", "1.5s", "1e3s", "0s", "00s", "01s", "s", "1sm", "1m1s", "１s"} {
 			durStr(s)
 		}
@@ -343,6 +364,11 @@ func runC19(c *fw.Ctx) {
 	}
 	allStrings("0126sm:,", listLen, c.Shard, c.Of, listStr)
 	if c.Shard == 0 {
+		for _, d := range OverflowNumerals() {
+			listStr("1s:" + d)
+			listStr(d + ":" + d)
+			listStr("1s:60s," + d + ":" + d)
+		}
 		for _, s := range []string{"1s:20y", "1s:68y", "1s:69y", "1s:2147483647s", "1s:2147483648s", "2s:3s", "2s:4s,3s:9s", "1s:2s,2s:2s", "1s:2s,1s:4s", "1s:1s,2s:4s", "1s:2s,2s:4s", "1s:2s,", ",1s:2s", "1s:2s,,2s:6s", "1s", "1s:", ":2s", "1s:2s:3s", "10s:2h,1m:1d", "1m:1d,10s:2h", "60s:1d,1m:2d", "1s:357913939s", "1s:357913940s"} {
 			listStr(s)
 		}
